@@ -39,8 +39,10 @@ def run_job(job):
 def main():
     from symx import instr
     instr.install_plain()
-    if os.environ.get("VERIF_FRAMEWORK", "twisted") == "twisted":
-        import txaio
+    import txaio
+    if os.environ.get("VERIF_FRAMEWORK", "twisted") == "asyncio":
+        txaio.use_asyncio()
+    else:
         txaio.use_twisted()
     mode, src = sys.argv[1], sys.argv[2]
     data = sys.stdin.read() if src == "-" else open(src).read()
